@@ -381,6 +381,33 @@ func (c *c40) uuids(replay bool) {
 		extra(x + 1<<53)
 		extra(x * 1000000007)
 	}
+	// quantifier audit ("all XUIDs"): every decimal length 1..19 at both ends of its range with both signs
+	// (a mapping that looks at a bounded number of digits), x + 2^k for every bit width k (a mapping that
+	// looks at the low k bits; the partner x is in the dense range), and the neighbourhood of a real-world
+	// 16-digit XUID
+	pow10 := int64(1)
+	for d := 1; d <= 19; d++ {
+		for k := int64(0); k < 128; k++ {
+			extra(pow10 + k)
+			extra(-(pow10 + k))
+			if d < 19 {
+				extra(pow10*10 - 1 - k)
+				extra(-(pow10*10 - 1 - k))
+			}
+		}
+		if d < 19 {
+			pow10 *= 10
+		}
+	}
+	for k := uint(21); k <= 62; k++ {
+		for x := int64(1); x <= 64; x++ {
+			extra(x + 1<<k)
+			extra(-(x + 1<<k))
+		}
+	}
+	for k := int64(-2048); k <= 2048; k++ {
+		extra(2535405290989773 + k)
+	}
 	for _, x := range []int64{0, math.MaxInt64, math.MinInt64, 2535405290989773, 1 << 31, 1<<31 - 1, 1 << 32, 1 << 63 >> 1} {
 		extra(x)
 	}
